@@ -22,6 +22,8 @@ The transformations (each preserves evaluation order, values and side effects):
   T12 conditional split    `x = a if c else b`  ->  `if c: x = a else: x = b`
   T14 else after return    `if c: ...return\n rest`  ->  `if c: ...return else: rest`   (last statements of a function body)
   T17 tuple assignment     `a, b = x, y`  ->  `_mm0 = x; _mm1 = y; a = _mm0; b = _mm1`
+  T1b operand extraction   `if f(x) > k:` -> `_mm = f(x); if _mm > k:` ; `y = g(a, h(b))` -> `_mm = h(b); y = g(a, _mm)` (first non-trivial argument)
+  T18 temp inlining        `v = E; <next statement reads v once>` -> E written in place of v (only where evaluation order is kept)
 """
 from __future__ import annotations
 
@@ -39,6 +41,7 @@ from concurrent.futures import ThreadPoolExecutor
 from pathlib import Path
 
 VERIF = Path(__file__).resolve().parent.parent
+sys.path.insert(0, str(VERIF))
 REPO = Path(os.environ.get("SA_REPO", "/repo"))
 PY = "/venv/bin/python"
 SRC = "src/tola"
@@ -136,6 +139,27 @@ def find_sites(path: Path):
                     return [ast.Assign(targets=[ast.Name(id=v, ctx=ast.Store())], value=st.test, lineno=0), new]
 
                 add("T1", st, mk)
+            # T1b: name an operand that is evaluated first anyway
+            if isinstance(st, ast.If) and not _is_elif(st) and isinstance(st.test, ast.Compare) and isinstance(st.test.left, ast.Call | ast.Attribute | ast.Subscript | ast.BinOp) and not _has_walrus_or_yield(st.test):
+                def mk(st=st, v=fresh("_mm")):
+                    new = copy.copy(st)
+                    new.test = copy.copy(st.test)
+                    new.test.left = ast.Name(id=v, ctx=ast.Load())
+                    return [ast.Assign(targets=[ast.Name(id=v, ctx=ast.Store())], value=st.test.left, lineno=0), new]
+
+                add("T1b", st, mk)
+            if isinstance(st, ast.Assign | ast.Return | ast.Expr) and isinstance(st.value, ast.Call) and not _has_walrus_or_yield(st) and (isinstance(st.value.func, ast.Name) or (isinstance(st.value.func, ast.Attribute) and _pure_operand(st.value.func.value))):
+                call = st.value
+                k = next((i for i, a_ in enumerate(call.args) if not isinstance(a_, ast.Name | ast.Constant)), None)
+                if k is not None and isinstance(call.args[k], ast.Call | ast.BinOp | ast.Subscript | ast.Attribute | ast.JoinedStr):
+                    def mk(st=st, k=k, v=fresh("_mm")):
+                        new = copy.copy(st)
+                        new.value = copy.copy(st.value)
+                        new.value.args = list(st.value.args)
+                        new.value.args[k] = ast.Name(id=v, ctx=ast.Load())
+                        return [ast.Assign(targets=[ast.Name(id=v, ctx=ast.Store())], value=st.value.args[k], lineno=0), new]
+
+                    add("T1b", st, mk)
             # T2
             if isinstance(st, ast.If) and st.orelse and not _is_elif(st) and not _has_walrus_or_yield(st.test):
                 def mk(st=st):
@@ -228,6 +252,19 @@ def find_sites(path: Path):
                 s_.until = rest[-1]
                 counters["T14"] = counters.get("T14", 0) + 1
                 sites.append(s_)
+        # T18: a temporary that is consumed by the very next statement is substituted into it (the reverse of T1)
+        try:
+            from sa.model import apply_subst, subst_candidates
+
+            for v_ in sorted(subst_candidates(fn)):
+                def mk(fn=fn, v_=v_):
+                    f2 = copy.deepcopy(fn)
+                    apply_subst(subst_candidates(f2)[v_])
+                    return [f2]
+
+                add("T18", fn, mk)
+        except ImportError:
+            pass
         # T7: rename one local (assigned by plain statements in this function only; not a parameter; no nested scopes use it)
         params = {a.arg for a in ast.walk(fn.args) if isinstance(a, ast.arg)}
         if not any(isinstance(x, ast.Global | ast.Nonlocal) for x in ast.walk(fn)):
